@@ -115,6 +115,47 @@ def coq_detail(ctx, d, obsfile):
     return re.sub(r'"([0-9a-f]*)"(?:%string)?', dec, out)[:3000]
 
 
+def mismatch_paths(ctx, d, obsfile):
+    """(missing paths, extra paths, model paths, outs_ok) of a mismatching run."""
+    txt = semcases.HEADER + semcases.case_text(0, d, obsfile) + semcases.paths(0)
+    rc, out = ctx.coq_eval(txt, "paths_" + os.path.basename(d))
+    m = re.search(r'P_0\s*=\s*\((.*)\)\s*:', out, re.S)
+    if not m:
+        return None
+    body = m.group(1)
+    lists = re.findall(r'\[(.*?)\]', body, re.S)
+    if len(lists) < 3:
+        return None
+
+    def dec(l):
+        return [bytes.fromhex(x).decode() for x in re.findall(r'"([0-9a-f]*)"', l)]
+    return dec(lists[0]), dec(lists[1]), dec(lists[2]), body.strip().endswith("true")
+
+
+def classify_mismatch(ctx, d, obsfile):
+    """Narrow class for one recorded behaviour: a stage inside a pipeline that is
+    mapped over a collection with no elements at run time still runs (once) when
+    its arguments do not depend on the element.  Returns the known class or None."""
+    r = mismatch_paths(ctx, d, obsfile)
+    if not r:
+        return None
+    missing, extra, model, outs_ok = r
+    if missing or not extra or not outs_ok:
+        return None
+    try:
+        mapped = [l.strip() for l in open(os.path.join(d, "mapped_pipelines.txt")) if l.strip()]
+    except OSError:
+        return None
+    for x in extra:
+        ok = False
+        for mp in mapped:
+            if x.startswith(mp + ".") and not any(y == mp or y.startswith(mp + ".") for y in model):
+                ok = True
+        if not ok:
+            return None
+    return "independent_stage_runs_under_empty_map"
+
+
 def save_replay(ctx, d, name, extra):
     """Copy a program directory (source, spec, observations, logs) as a replay."""
     dst = os.path.join(lib.VERIF, "replays", ctx.prop, name)
@@ -220,6 +261,8 @@ def run_known_corpus(ctx):
         open(os.path.join(d, "pipeline.mro"), "w").write(src)
         shutil.copy(os.path.join(root, name, "spec.json"), d)
         env = dict(os.environ, MROPATH=d, VH_SPEC=os.path.join(d, "spec.json"), VH_EVENTS=os.path.join(d, "ps.events"))
+        if meta.get("sched"):
+            env["VH_SCHED"] = meta["sched"]
         try:
             p = subprocess.run([os.path.join(ctx.mart, "bin", "mrp"), "pipeline.mro", "ps", "--localcores=4", "--localmem=4",
                                 "--disable-ui", "--nopreflight"], cwd=d, env=env, stdout=subprocess.PIPE,
@@ -233,12 +276,25 @@ def run_known_corpus(ctx):
             outs = lib.run([ctx.vh, "c01", "topouts", d, "ps"], timeout=30).stdout.strip()
         except Exception:
             pass
-        if rc == 0 and outs == meta["expect_outs"]:
+        jobs_ok = True
+        jobs = {}
+        if meta.get("expect_main_jobs"):
+            try:
+                for line in open(os.path.join(d, "ps.events")):
+                    f = line.split()
+                    if len(f) >= 5 and f[1] == "start" and f[4] == "main":
+                        jobs[f[3]] = jobs.get(f[3], 0) + 1
+            except OSError:
+                pass
+            jobs_ok = all(jobs.get(k, 0) == v for k, v in meta["expect_main_jobs"].items())
+        if rc == 0 and outs == meta["expect_outs"] and jobs_ok:
             continue        # repaired / still correct
         if kind == "regress":
             # a minimal program for a defect that was repaired: it must stay correct
-            ctx.fail("regression:" + name, "%s: exit %d, outs %s, expected %s" % (meta["what"], rc, outs, meta["expect_outs"]),
-                     {"program": "corpus/regress/" + name, "exit": rc, "log_tail": out[-1500:], "outs": outs})
+            ctx.fail("regression:" + name, "%s: exit %d, outs %s, expected %s; main jobs run %s, expected %s" % (
+                         meta["what"], rc, outs, meta["expect_outs"], json.dumps(jobs, sort_keys=True),
+                         json.dumps(meta.get("expect_main_jobs"), sort_keys=True)),
+                     {"program": "corpus/regress/" + name, "exit": rc, "log_tail": out[-1500:], "outs": outs, "main_jobs": jobs})
             continue
         if re.search(meta["expect_regex"], out) or (rc == 0 and outs and outs == meta.get("expect_wrong_outs")):
             ctx.fail("corpus:" + name, meta["what"], {"program": name, "exit": rc, "log_tail": out[-800:]})
